@@ -1,11 +1,13 @@
 package checks
 
 import (
+	"context"
 	"math/rand"
 	"time"
 
 	"verifharness/refcodec"
 
+	"github.com/gebn/bmc"
 	"github.com/gebn/bmc/pkg/dcmi"
 	"github.com/gebn/bmc/pkg/iana"
 	"github.com/gebn/bmc/pkg/ipmi"
@@ -25,6 +27,8 @@ type genCmd struct {
 	Label    string
 	SerFail  bool
 	InSessOK bool // may be sent inside a session
+	// Call, when set, performs the request through a higher-level API instead of SendCommand(Cmd)
+	Call func(ctx context.Context, conn bmc.Connection) (ipmi.CompletionCode, error) `json:"-"`
 }
 
 var cmdKinds = []string{"authcaps", "ciphersuites", "sessioninfo", "setpriv", "close", "chassiscontrol", "getsdr", "sensorreading",
